@@ -100,15 +100,26 @@ def raw_state(traj):
     return b"|".join(parts)
 
 
+class ObjectInvariantBroken(Exception):
+    """an evo object is malformed in a way no check can look past (reported
+    as a violation by the runner, see core.classify_exception)"""
+
+
 def views(traj):
     """(R list, p array, stamps or None) read through a deep copy"""
     c = copy.deepcopy(traj)
     poses = [np.array(p) for p in c.poses_se3]
+    stamps = np.array(c.timestamps) if hasattr(c, "timestamps") else None
+    if stamps is not None and stamps.ndim != 1:
+        raise ObjectInvariantBroken(
+            "%s with %d pose(s) holds timestamps of shape %s (one timestamp "
+            "per pose expected)" % (type(traj).__name__, c.num_poses,
+                                    stamps.shape))
     return {
         "poses": poses,
         "xyz": np.array(c.positions_xyz),
         "quat": np.array(c.orientations_quat_wxyz),
-        "stamps": np.array(c.timestamps) if hasattr(c, "timestamps") else None,
+        "stamps": stamps,
         "n": c.num_poses,
     }
 
